@@ -9,6 +9,7 @@ Spec oracle (on the implementation's output only, written independently of the m
 """
 import math
 import os
+import re
 from concurrent.futures import ThreadPoolExecutor
 
 from lib import core
@@ -434,8 +435,23 @@ def gen_lists(r, tier):
 
 
 # ------------------------------------------------------------------ the check
+def harness_env(script):
+    # OwenStateSpace::getPath leaks its scratch Dubins state on some return paths (seen by LeakSanitizer on the
+    # unchanged tree; not a C05 matter, see notes/C05.md): leak detection is off for the Owen scripts only.
+    if " space=owen " in script[0]:
+        return {"ASAN_OPTIONS": "detect_leaks=0:abort_on_error=0:exitcode=99"}
+    return None
+
+
+def run_harness(ck, hbin, script):
+    return ck.run_bin(hbin, script, env=harness_env(script))
+
+
 def run_script(ck, hbin, script):
-    impl, rc, err, model = ck.run_pair(hbin, DRIVER, script)
+    impl, rc, err = run_harness(ck, hbin, script)
+    model, rc2, err2 = ck.run_bin(ck.driver(DRIVER), script)
+    if rc2 != 0:
+        raise RuntimeError("model driver %s failed (rc=%s): %s" % (DRIVER, rc2, (err2 or "")[-2000:]))
     return impl or [], rc, err, model
 
 
@@ -457,20 +473,28 @@ def split_groups(script):
     return groups
 
 
-def shrink(ck, hbin, script, segs_by_text):
+def shrink(ck, hbin, script, segs_by_text, fail_idx=None):
     """smallest script on which the oracle still fails: one group, then as few invalid indices as possible."""
     hdr = script[0]
 
     def fails(lines):
         s = [hdr] + lines
-        o, rc, _e = ck.run_bin(hbin, s)
+        o, rc, _e = run_harness(ck, hbin, s)
         f, _ = oracle(s, o or [], segs_for(s, segs_by_text))
         return f is not None or rc != 0
     groups = split_groups(script)
     best = None
-    for g in groups:
-        if fails(g):
-            best = g
+    order = list(range(len(groups)))
+    if fail_idx is not None:          # the group containing the failing op first
+        pos = 0
+        for gi, g in enumerate(groups):
+            if pos <= fail_idx < pos + len(g):
+                order = [gi] + [x for x in order if x != gi]
+                break
+            pos += len(g)
+    for gi in order[:80]:
+        if fails(groups[gi]):
+            best = groups[gi]
             break
     if best is None:
         kept = core.ddmin(groups, lambda gs: fails([l for g in gs for l in g]), max_tests=200)
@@ -528,7 +552,7 @@ def targeted_search(ck, hbin, script, impl, model, d, segs_by_text):
     rest = ln.split(" ", 1)[1]
     for j in seen[:24]:
         s = [script[0], "invalid idx %d" % j] + hint + ["cm2 " + rest, "cm3 " + rest]
-        o, rc, _e = ck.run_bin(hbin, s)
+        o, rc, _e = run_harness(ck, hbin, s)
         ck.count("search:predicates-tried")
         f, _ = oracle(s, o or [], segs_for(s, segs_by_text))
         if f is not None:
@@ -562,6 +586,9 @@ def account(ck, tag, script, impl, stats):
     ck.sample({"generator": tag, "header": script[0], "lines": script[1:6], "impl": impl[:5]})
 
 
+_reported = set()
+
+
 def judge(ck, hbin, tag, script, segs_by_text=None, pre=None):
     impl, rc, err, model = pre if pre is not None else run_script(ck, hbin, script)
     fail, stats = oracle(script, impl, segs_for(script, segs_by_text))
@@ -576,7 +603,13 @@ def judge(ck, hbin, tag, script, segs_by_text=None, pre=None):
             script, impl, fail = found
             model = ck.run_bin(ck.driver(DRIVER), script)[0]
     if fail is not None:
-        small = shrink(ck, hbin, script, segs_by_text)
+        # one report per (kind of failure, space, validator); repeats are only counted
+        key = (re.sub(r"[0-9]+", "#", fail[1])[:60], cfg["space"], cfg["validator"])
+        if key in _reported or len(_reported) >= 8:
+            ck.count("repeat of an already reported failure")
+            return False
+        _reported.add(key)
+        small = shrink(ck, hbin, script, segs_by_text, fail[0])
         o, r2, e2, m = run_script(ck, hbin, small)
         f, _ = oracle(small, o, segs_for(small, segs_by_text))
         what = f[1] if f else fail[1]
@@ -587,6 +620,11 @@ def judge(ck, hbin, tag, script, segs_by_text=None, pre=None):
     if d is not None:
         ck.disagreements += 1
         hdr = script[0]
+        key = ("disagreement", cfg["space"], cfg["validator"])
+        if key in _reported or len(_reported) >= 8:
+            ck.count("repeat of an already reported disagreement")
+            return False
+        _reported.add(key)
 
         def still(gs):
             s = [hdr] + [l for g in gs for l in g]
@@ -611,7 +649,7 @@ def hinted_scripts(ck, hbin, r, tier):
     out = []
     for cfg, pairs in gen_hinted_pairs(r, tier):
         pre = [header(cfg)] + ["seg %s %s" % (st(a), st(b)) for a, b in pairs]
-        o, rc, err = ck.run_bin(hbin, pre)
+        o, rc, err = run_harness(ck, hbin, pre)
         if rc != 0 or o is None or len(o) != len(pairs):
             out.append(("hinted-" + cfg["space"], pre, {}))     # judged as is: the oracle reports the crash
             continue
@@ -679,7 +717,8 @@ def run(ck):
     for tag, s, segs in hinted_scripts(ck, hbin, r.fork("hinted"), ck.tier):
         jobs.append((tag, s, segs))
     bad = 0
-    # corpus first (sequential), then the rest in parallel; stop reporting after three failures
+    _reported.clear()
+    # corpus first (sequential), then the rest in parallel
     ncorp = len([j for j in jobs if j[0].startswith("corpus:")])
     for tag, s, segs in jobs[:ncorp]:
         if not judge(ck, hbin, tag, s, segs):
@@ -688,8 +727,6 @@ def run(ck):
     with ThreadPoolExecutor(max_workers=min(12, os.cpu_count() or 4)) as ex:
         pre = list(ex.map(lambda j: run_script(ck, hbin, j[1]), rest))
     for (tag, s, segs), p in zip(rest, pre):
-        if bad >= 3:
-            break
         if not judge(ck, hbin, tag, s, segs, pre=p):
             bad += 1
     return 0
